@@ -101,6 +101,8 @@ impl Gen
     fn ty(&mut self) -> u8 { self.rng.gen_range(1..=self.g.ntypes) }
     fn ent(&mut self) -> u8 { self.rng.gen_range(1..=self.g.cfg.nent.max(1)) as u8 }
     fn val(&mut self) -> u32 { self.rng.gen_range(1..=self.g.nvals) }
+    /// value for the set-if-different accessors: sometimes a value that compares equal to another one (v + 100 == v)
+    fn setval(&mut self) -> u32 { let v = self.val(); if self.rng.gen_range(0..100) < 35 { v + 100 } else { v } }
     fn payload(&mut self) -> u32 { let p = self.next_p; self.next_p += 1; p }
 
     /// A system that can be referenced: pre-spawned ones, issued one-off slots, world reactors are not addressed directly.
@@ -156,11 +158,11 @@ impl Gen
                 "eev" => Op::EEv(self.ent(), self.ty(), self.payload()),
                 "res" => Op::Res(self.ty()),
                 "resmut" => Op::ResMut(self.ty(), self.val()),
-                "resset" => Op::ResSet(self.ty(), self.val()),
+                "resset" => Op::ResSet(self.ty(), self.setval()),
                 "resno" => Op::ResNo(self.ty(), self.val()),
                 "ins" => Op::Ins(self.ent(), self.ty(), self.val()),
                 "mut" => Op::Mut(self.ent(), self.ty(), self.val()),
-                "set" => Op::Set(self.ent(), self.ty(), self.val()),
+                "set" => Op::Set(self.ent(), self.ty(), self.setval()),
                 "noreact" => Op::NoReact(self.ent(), self.ty(), self.val()),
                 "trig" => Op::Trig(self.ent(), self.ty()),
                 "rm" => Op::Rm(self.ent(), self.ty()),
@@ -173,7 +175,7 @@ impl Gen
                 "xeev" => Op::XEEv(self.ent(), self.ty(), self.payload()),
                 "xsysev" => Op::XSysEv(self.sys(applied), self.payload()),
                 "smut" => Op::SMut(self.ent(), self.ty(), self.val()),
-                "sset" => Op::SSet(self.ent(), self.ty(), self.val()),
+                "sset" => Op::SSet(self.ent(), self.ty(), self.setval()),
                 "sno" => Op::SNo(self.ent(), self.ty(), self.val()),
                 "despsys" => Op::DespSys(self.sys(applied)),
                 "rcdrop" => { if self.g.cfg.rcsys.is_empty() { continue; } let i = self.rng.gen_range(0..self.g.cfg.rcsys.len()); Op::RcDrop(self.g.cfg.rcsys[i] as u8) }
